@@ -207,7 +207,11 @@ fn mode_c10(a: &Args) -> Value {
     let mut cells: BTreeMap<String, u64> = BTreeMap::new();
     let mut slivers = 0u64;
     let intervals: Vec<(f64, &str)> = vec![(0.0, "0"), (0.1, "0.1"), (0.5, "0.5"), (1.0, "1"), (16.0, "16"), (1024.0, "1024"), (-4.0, "-4"), (0.3, "0.3"), (100000.0, "1e5")];
-    let now_ns = T0_REAL_S as i128 * NS;
+    // The wall-clock instant at which a report is processed: an ordinary time of day, and instants
+    // around the end of a UTC day (the classification may depend on the age only).
+    let day_end = (T0_REAL_S as i128 / 86400 + 1) * 86400 * NS;
+    let nows: Vec<i128> = vec![T0_REAL_S as i128 * NS, day_end - 1_500_000_000, day_end - 500_000_000, day_end - 1, day_end, day_end + 1, day_end + 100 * NS, day_end + 43200 * NS,
+                               day_end - 999_999_999, day_end + 3600 * NS];
     let good = sync_report(float_bits(1 << 10, 0), float_bits(1 << 10, 0), float_bits(1 << 10, 0));
 
     // Work list: (leap, age, interval bits, fsm state before)
@@ -252,13 +256,29 @@ fn mode_c10(a: &Args) -> Value {
         work.push((*rng.pick(&[0u16, 1, 2, 3, 4, 9, 65535]), age, iv, rng.below(3) as usize, "random"));
     }
 
+    // Every work item gets a wall-clock instant; (d) the edges of the age range at every instant.
+    let mut work: Vec<(u16, i128, u32, usize, &'static str, usize)> = work.into_iter().enumerate().map(|(i, w)| (w.0, w.1, w.2, w.3, w.4, (i / 3) % nows.len())).collect();
+    for ni in 0..nows.len() {
+        for leap in [0u16, 1, 2, 3, 4] {
+            for ivl in [1.0f64, 16.0, 64.0] {
+                let lim = (8.0 * ivl) as i128 * NS;
+                for age in [-NS - 1, -NS, -999_999_999, -500_000_000, -1, 0, 1, 500_000_000, NS, lim - NS, lim - 1, lim, lim + 1, lim + NS, 2 * lim, 512 * NS, 513 * NS, 86_400 * NS - 1, 86_400 * NS, 86_401 * NS] {
+                    work.push((leap, age, bits_of_f64(ivl), 1, "time-of-day", ni));
+                }
+            }
+        }
+    }
     let mut idx = 0usize;
     let mut samples = Vec::new();
-    for (leap, age, iv, state, kind) in work.iter() {
+    for (leap, age, iv, state, kind, ni) in work.iter() {
         idx += 1;
         if (idx as u64) % a.nshards != a.shard {
             continue;
         }
+        let now_ns = nows[*ni];
+        clock::fixed::set(((now_ns / NS) as i64, (now_ns % NS) as i64), (5000, 0));
+        let good = Report { ref_time_ns: now_ns, ..good };
+        *cells.entry(format!("time-of-day-{}", (now_ns / NS) % 86400)).or_insert(0) += 1;
         // Bring the FSM to the wanted state, always with a measurement on record.
         d.send(Message::ClockErrorBoundData((tracking_of(&good), 0, ts(4000, 0))));
         let mut expect_n = 2;
@@ -316,6 +336,7 @@ fn mode_c10(a: &Args) -> Value {
     // The very same report again, later: what counts is the age when the report is processed.
     // (chronyd keeps reporting the same reference time until it updates the clock again.)
     let mut replayed = 0u64;
+    let now_ns = T0_REAL_S as i128 * NS;
     if a.shard == 0 {
         for leap in [0u16, 1, 2] {
             for ivl in [0.25f64, 1.0, 16.0, 64.0] {
@@ -405,7 +426,8 @@ impl Outcome {
             Outcome::Sync { a, b, c, phc, ivl_log2, age_permille } => {
                 let interval_s = 1i128 << *ivl_log2;
                 let age = 8 * interval_s * NS * *age_permille as i128 / 1000;
-                let mut r = rep(0, age, *a, *b, *c);
+                // leap status 0, 1 (insert second) and 2 (delete second) are all "synchronised"
+                let mut r = rep(((a.unsigned_abs() + *b as u64 + *c as u64 + *age_permille as u64) % 3) as u16, age, *a, *b, *c);
                 r.interval_bits = bits_of_f64(interval_s as f64);
                 Message::ClockErrorBoundData((tracking_of(&r), *phc, ts(as_of.0, as_of.1)))
             }
@@ -471,8 +493,20 @@ fn run_sequence(a: &Args, prop: &str, seq: &[Outcome], drift: u32, previous: boo
     // Virtual time passes between outcomes (none, a poll period, around the 5 s grace period, long):
     // what is published may depend on the outcomes only.
     let mut grng = Rng::new(seq.len() as u64 * 7919 + drift as u64 + previous as u64);
+    // In some sequences the wall clock advances by 1 ns at each read (frozen otherwise): a report
+    // whose reference time is exactly eight intervals old at the first read is then on the edge,
+    // it may be classified either way, but consistently (status and measurement go together).
+    let ticking = seq.iter().any(|o| matches!(o, Outcome::Sync { age_permille: 1000, .. })) && grng.chance(3, 4);
+    clock::fixed::set_real_tick(if ticking { 1 } else { 0 });
+    if ticking {
+        *stats.entry("sequences-with-ticking-wall-clock".to_string()).or_insert(0) += 1;
+    }
     let mut mono_ns: i128 = 50 * NS;
-    let mut real_ns: i128 = T0_REAL_S as i128 * NS;
+    // The wall clock starts at an ordinary time of day or close to the end of a UTC day, so that
+    // sequences are also processed across midnight.
+    let day_end = (T0_REAL_S as i128 / 86400 + 1) * 86400 * NS;
+    let mut real_ns: i128 = *grng.pick(&[T0_REAL_S as i128 * NS, T0_REAL_S as i128 * NS, day_end - 10 * NS, day_end - 1_500_000_000, day_end - 500_000_000, day_end - 1, day_end, day_end + NS, day_end + 100 * NS]);
+    *stats.entry(format!("wall-clock-start-{}", (real_ns / NS) % 86400)).or_insert(0) += 1;
     for (i, o) in seq.iter().enumerate() {
         let gap: i128 = *grng.pick(&[0i128, 1_000_000, NS, NS, 4_900_000_000, 5 * NS, 5 * NS + 1, 7 * NS, 100 * NS, 2000 * NS]);
         mono_ns += gap;
@@ -497,6 +531,13 @@ fn run_sequence(a: &Args, prop: &str, seq: &[Outcome], drift: u32, previous: boo
         let log_len = d.log.lock().unwrap().len();
         let rec = *d.log.lock().unwrap().last().unwrap();
         let gen_after = generation_of(&path).unwrap_or(0);
+        // On the edge under a ticking clock the published status tells which way it went.
+        let mut o_eff = *o;
+        if ticking && matches!(o, Outcome::Sync { age_permille: 1000, .. }) && rec.status != 1 {
+            o_eff = Outcome::Stale;
+            *stats.entry("edge-reports-classified-stale".to_string()).or_insert(0) += 1;
+        }
+        let o = &o_eff;
         if let Outcome::Sync { a: oa, b, c, phc, .. } = o {
             have_sync = true;
             m_bound = expected_bound(*oa, *b, *c, *phc);
@@ -575,6 +616,7 @@ fn run_sequence(a: &Args, prop: &str, seq: &[Outcome], drift: u32, previous: boo
         }
     }
     d.stop();
+    clock::fixed::set_real_tick(0);
     Ok(())
 }
 
@@ -651,12 +693,34 @@ fn mode_c08_c09(a: &Args, prop: &str) -> Value {
                 }
             }
         }
+        // The first report of an incarnation on the edge of "synchronised", alone and after
+        // non-synchronised outcomes, then outcomes of every kind.
+        for ivl in [0u8, 4, 6, 10] {
+            for first in [None, Some(Outcome::Unsync), Some(Outcome::NoReplyGrace), Some(Outcome::NoReply)] {
+                for after in NONSYNC.iter() {
+                    for previous in [false, true] {
+                        let mut seq: Vec<Outcome> = first.into_iter().collect();
+                        seq.push(Outcome::Sync { a: 700, b: 300, c: 700, phc: 0, ivl_log2: ivl, age_permille: 1000 });
+                        seq.push(*after);
+                        seq.push(Outcome::Stale);
+                        if let Some(e) = run(seq, 1000, previous, &mut violations, &mut stats) {
+                            inconclusive = Some(e);
+                        }
+                    }
+                }
+            }
+        }
         let mut rng = Rng::new(a.seed ^ 0xC09);
         for _ in 0..a.count {
             let len = 1 + rng.below(30) as usize;
             let mut seq: Vec<Outcome> = (0..len).map(|_| random_outcome(&mut rng, false)).collect();
             // then a synchronised report and more, to see that the pipeline does recover
-            seq.push(if rng.chance(1, 3) { Outcome::Sync { a: 0, b: 1024, c: 512, phc: 0, ivl_log2: 4, age_permille: 10 } } else { sync });
+            // (one in four: a report exactly eight intervals old, the edge of "synchronised")
+            seq.push(match rng.below(4) {
+                0 => Outcome::Sync { a: 0, b: 1024, c: 512, phc: 0, ivl_log2: 4, age_permille: 10 },
+                1 => Outcome::Sync { a: rng.range(-5000, 5000), b: 300, c: 700, phc: 0, ivl_log2: *rng.pick(&[0u8, 4, 6]), age_permille: 1000 },
+                _ => sync,
+            });
             seq.push(random_outcome(&mut rng, true));
             seq.push(random_outcome(&mut rng, false));
             let drift = *rng.pick(&[1000u32, 50_000, 500_000]);
@@ -685,6 +749,12 @@ fn main() {
     let t0 = clock::real_clock_ns(libc::CLOCK_MONOTONIC);
     wire::self_check();
     clock::per_thread_mode(true);
+    // The real daemon always runs with a tracing subscriber installed (log lines are formatted,
+    // their arguments evaluated); a test process usually has none. Odd shards run like the daemon.
+    let subscriber = shard % 2 == 1;
+    if subscriber {
+        let _ = tracing_subscriber::fmt().with_max_level(tracing::Level::TRACE).with_writer(std::io::sink).try_init();
+    }
     let mut v = match mode.as_str() {
         "c07" => {
             clock::fixed::install();
@@ -708,6 +778,8 @@ fn main() {
     };
     v["wall_s"] = json!((clock::real_clock_ns(libc::CLOCK_MONOTONIC) - t0) as f64 / 1e9);
     v["virtual_clock_reads"] = json!(clock::virtual_reads());
+    v["tracing_subscriber_installed"] = json!(subscriber);
+    v["report_noise_address_families"] = json!(wire::NOISE_FAMILIES.iter().map(|c| c.load(std::sync::atomic::Ordering::Relaxed)).collect::<Vec<_>>());
     let out = arg_str(&map, "out", "");
     if out.is_empty() {
         println!("{}", vworld::serde_json::to_string_pretty(&v).unwrap());
